@@ -154,6 +154,35 @@ func TestC20(t *testing.T) {
 						}
 					}(g)
 				}
+				if p.ShutdownRace && pr.kind == "grpc" {
+					// listeners being announced on both sides at the moment the broker goes away
+					for g := 0; g < 8; g++ {
+						wg.Add(1)
+						go func(g int) {
+							defer wg.Done()
+							side := []string{"host", "plugin"}[g%2]
+							b := pr.hostGRPC
+							if side == "plugin" {
+								b = pr.plugGRPC
+							}
+							for i := 0; i < 2000; i++ {
+								failed := false
+								oc.do("accept-storm", func() error {
+									ln, err := b.Accept(nextID(side))
+									if err != nil {
+										failed = true
+										return err
+									}
+									ln.Close()
+									return nil
+								})
+								if failed {
+									return
+								}
+							}
+						}(g)
+					}
+				}
 				if p.ShutdownRace {
 					wg.Add(1)
 					go func() {
